@@ -245,6 +245,8 @@ def main():
             er = mod.run_engine(a.tier, seed, known, a.only)
         except Exception as e:  # fail closed
             traceback.print_exc()
+            if os.environ.get("VERIF_TRACEBACK"):
+                import traceback as _tb; _tb.print_exc()
             er = {"records": [], "violations": [], "known": [], "inconclusive": [{"obligation": "engine", "reason": "engine aborted: %r" % (e,)}]}
         records += er["records"]
         viol_lines += er["violations"]
